@@ -6,6 +6,7 @@ package main
 // proof step: a path is dropped only on a definite `unsat`).
 
 import (
+	"os"
 	"bufio"
 	"fmt"
 	"io"
@@ -147,6 +148,12 @@ func (f *feasSolver) feasible(w *World, pc []*Term) bool {
 	}
 	if line == "unsat" {
 		f.pruned++
+		if os.Getenv("GOVC_DEBUG_PRUNE") != "" {
+			fmt.Fprintf(os.Stderr, "PRUNED with %d terms; last: %s\n", len(terms), terms[len(terms)-1])
+			for _, t := range terms {
+				fmt.Fprintf(os.Stderr, "   %s\n", t)
+			}
+		}
 		return false
 	}
 	return true
